@@ -31,6 +31,14 @@ def prog_cat(exit_variant=False):
     return p
 
 
+def prog_cat_cushion(nz=2):
+    # the same loop, but every character is READ by a multi-operand addition over a cushion of own zeroes that the
+    # program keeps on top of stack 0 (0 + 0 + c, sent back to stack 0): the read happens in the middle of one command,
+    # below values the program pushed itself
+    p = prog_cat(False)
+    return p[:2] + [(0, 1, 0, None)] * nz + [(1, nz + 1, 0, None)] + p[2:]
+
+
 def prog_reverse_k(k, m):
     # move k characters to stack 4, 흑.... pops one more, copies it to 4, pushes it back on 0; print k+1 from 4;
     # select stack 0 again and copy m more characters: the pushed-back character must come first
@@ -58,6 +66,7 @@ for _k in (0, 1, 2, 3, 7, 20, 64, 300):
     PROGRAMS.append(('copy_%d' % _k, prog_copy_k(_k), lambda t, k=_k: expect_copy_k(k, t), 0))
 PROGRAMS.append(('cat', prog_cat(False), lambda t: expect_cat(t, False), 0))
 PROGRAMS.append(('cat_exit', prog_cat(True), lambda t: expect_cat(t, True), 0))
+PROGRAMS.append(('cat_cushion', prog_cat_cushion(2), lambda t: expect_cat(t, False), 0))
 for _k, _m in ((1, 2), (2, 0), (5, 7), (17, 40)):
     PROGRAMS.append(('reverse_%d_%d' % (_k, _m), prog_reverse_k(_k, _m), lambda t, k=_k, m=_m: expect_reverse(k, m, t), _k + 1))
 
@@ -151,7 +160,7 @@ def _case(i):
     cands = [p for p in PROGRAMS if len(text) >= p[3]]
     progs = rng.sample(cands, min(len(cands), 2 if len(text) > 2000 else 3))
     if kind in ('long_multibyte_line', 'long_line', 'aligned_long_line'):
-        progs = [p for p in PROGRAMS if p[0] == rng.choice(['cat', 'cat_exit'])]
+        progs = [p for p in PROGRAMS if p[0] == rng.choice(['cat', 'cat_exit', 'cat_cushion'])]
     for name, prog, fexp, _ in progs:
         want = fexp(text)
         d = os.path.join(_RUN['dir'], name)
